@@ -68,12 +68,23 @@ def norm_path(p, crate_kind):
 
 
 class Mir:
-    def __init__(self, files):
+    def __init__(self, files, renames=None):
         self.fns = {}
         self.crates = []
+        from . import canon
+        rn = lambda p: canon.rename_in_path(p, renames)
         for f in files:
             with open(f) as fh:
                 d = json.load(fh)
+            if renames:
+                for fn in d["fns"]:
+                    fn["path"] = rn(fn["path"])
+                    fn["parent"] = rn(fn["parent"]) if fn["parent"] else fn["parent"]
+                    for b in fn["blocks"]:
+                        t = b["term"]
+                        if t["k"] == "call":
+                            t["callee"] = rn(t["callee"])
+                            t["resolved"] = rn(t["resolved"]) if t["resolved"] else t["resolved"]
             kind = "bin" if "Executable" in d["crate_types"] else "lib"
             self.crates.append((d["crate"], kind, len(d["fns"])))
             for fn in d["fns"]:
@@ -294,5 +305,5 @@ def get_mir(tier="quick"):
             os.replace(tmp, d)
         except OSError:
             shutil.rmtree(tmp, ignore_errors=True)
-    _mir = Mir(sorted(glob.glob(os.path.join(d, "complgen-*.json"))))
+    _mir = Mir(sorted(glob.glob(os.path.join(d, "complgen-*.json"))), renames=getattr(core.get_repo(), "renames", None))
     return _mir
